@@ -502,3 +502,10 @@ def witness_image_src():
     import mistletoe
     out = mistletoe.markdown('![a](x"onerror="alert(1))')
     return (not wf_html(out)) or 'onerror="' in out, 'markdown(\'![a](x"onerror="alert(1))\') = %r' % out
+
+
+def witness_mailto_unescaped():
+    """(fixed) the mailto branch of render_auto_link wrote the target unescaped: <http://a@b"x> closed the href"""
+    import mistletoe
+    out = mistletoe.markdown('<http://a@b"x>')
+    return not wf_html(out), "markdown('<http://a@b\"x>') = %r" % out
